@@ -14,8 +14,8 @@ LEVEL = "exploration"
 TECHNIQUE = "property-based testing with boundary-directed (rate, cadence, index) triples written by the real writer; location compared with big-integer arithmetic and read back through the reader"
 RULE = (
     "Hypothesis draws (n/d, file cadence C, subdirectory cadence, prefix) and 1-5 ascending sample indices of the "
-    "form ceil(j*C*n/d) + delta (delta in -2..2, j over 1980-2100) or uniform; each is written with "
-    "DigitalMetadataWriter. Oracle (big ints): the only files present are <subdir of T//S*S>/<prefix>@T.h5 with "
+    "form ceil(j*C*n/d) + delta (delta in -2..2, j over 1980-2100) or uniform; each is written (in a drawn order, "
+    "numerators up to 10^12) with DigitalMetadataWriter. Oracle (big ints): the only files present are <subdir of T//S*S>/<prefix>@T.h5 with "
     "T = ((k*d)//n)//C*C and group str(k) is inside; read(k,k) returns exactly {k}; read_latest returns the "
     "greatest; the reader's candidate list for (k,k) is exactly that path. Non-trivial: some k is within one "
     "sample of a file's first sample ceil(j*C*n/d) (class boundary-noninteger-rate counts those with n % d != 0)."
@@ -44,7 +44,9 @@ def _cases(draw, tier):
             k = ks[-1] + 1
         ks.append(max(0, k))
         j += draw(st.sampled_from([0, 1, 1, 2, 7, 61]))
-    return dict(p, ks=ks)
+    # the writer does not require ascending order across calls: write in a drawn order
+    order = draw(st.permutations(list(range(len(ks)))))
+    return dict(p, ks=ks, order=list(order))
 
 
 def strategy(tier):
@@ -75,7 +77,8 @@ def run_case(case):
         os.makedirs(md)
         w = drf.DigitalMetadataWriter(md, S, C, n, d, prefix)
         expected = set()
-        for i, k in enumerate(ks):
+        for i in case.get("order", range(len(ks))):
+            k = ks[i]
             res.evaluations += 1
             try:
                 w.write(k, {"v": i, "name": "s%d" % i})
@@ -129,7 +132,9 @@ def shrink_candidates(case):
     ks = case["ks"]
     for i in range(len(ks)):
         if len(ks) > 1:
-            yield dict(case, ks=ks[:i] + ks[i + 1:])
+            yield dict(case, ks=ks[:i] + ks[i + 1:], order=list(range(len(ks) - 1)))
+    if case.get("order") and case["order"] != sorted(case["order"]):
+        yield dict(case, order=sorted(case["order"]))
     if case["S"] != case["C"]:
         yield dict(case, S=case["C"])
     if case["prefix"] != "md":
